@@ -103,3 +103,17 @@ func init() {
 	register("C12", f)
 	register("C18", f)
 }
+
+// A workload's host code overwrites device buffers that kernels have written (C01: the simulated
+// result equals the host reference): the command processor must not let a copy overtake a cache
+// flush in either direction, and copies issued on several queues must all arrive. C11's command
+// processor and multi-queue scenarios are evaluated as oracles of C01 as well.
+func init() {
+	register("C01", func(r *Run, rng *Rng, _ string) {
+		r.OracleOnly = true
+		defer func() { r.OracleOnly = false }()
+		for i := 0; i < 60; i++ {
+			c11CpScenario(r, rng)
+		}
+	})
+}
